@@ -201,8 +201,21 @@ def run(ctx, replay=None):
     if not ok:
         ctx.inconclusive.append('binding self-test: a corrupted expectation was accepted by the driver')
 
-    rep = engine.run_driver(ctx, DRV, traces, timeout=3000)
-    engine.collect(ctx, rep, traces, DRV)
+    # the replay of the blocks is split over three driver processes (each builds its own ground chains)
+    traces.sort(key=lambda t: (t['cfg']['config'], t['id']))
+    nchunk = 3
+    size = (len(traces) + nchunk - 1) // nchunk
+    chunks = [traces[i:i + size] for i in range(0, len(traces), size)]
+    with ThreadPoolExecutor(max_workers=nchunk) as ex:
+        reps = list(ex.map(lambda ch: engine.run_driver(ctx, DRV, ch, timeout=3000), chunks))
+    rep = {'traces': 0, 'steps': 0, 'checks': 0, 'counters': {}, 'extra': {'result_classes': []}}
+    for ch, r in zip(chunks, reps):
+        engine.collect(ctx, r, ch, DRV)
+        for k in ('traces', 'steps', 'checks'):
+            rep[k] += r.get(k, 0)
+        for k, v in (r.get('counters') or {}).items():
+            rep['counters'][k] = rep['counters'].get(k, 0) + v
+        rep['extra']['result_classes'] = sorted(set(rep['extra']['result_classes']) | set((r.get('extra') or {}).get('result_classes') or []))
     ctx.log('mbt: %d behaviours, %d checks, counters %s' % (rep['traces'], rep['checks'], rep.get('counters')))
     brep = engine.run_driver(ctx, DRV, byz, timeout=3000)
     engine.collect(ctx, brep, byz, DRV)
